@@ -169,6 +169,27 @@ func runC02(o *opts) (*summary, error) {
 				}
 			}
 		}
+		// (2b) each field set to each special pattern (the library's own encoding of the zero time, a clock never set, ...)
+		for _, f := range lt.Rsp[op].Fields {
+			f := f
+			if f.Name == "SerialNumber" {
+				continue
+			}
+			for _, pat := range specialPatterns(width(f.Kind)) {
+				pat := pat
+				run(op, serialOf(), "field-special", func(l layout, req []byte) []byte {
+					m := l.message(rng, som(op), req[4:8], "valid", nil)
+					if op == "GetCardByID" && f.Name != "CardNumber" {
+						copy(m[8:12], req[8:12])
+					}
+					if op == "GetTimeProfile" && f.Name != "ProfileID" {
+						m[8] = req[8]
+					}
+					copy(m[f.Off:], pat)
+					return m
+				})
+			}
+		}
 		// (3) every byte of every field over all 256 values, the rest valid
 		step := 1
 		for _, off := range lt.Rsp[op].fieldOffsets() {
